@@ -20,35 +20,19 @@ theorem spec_toff_is_inverse_rate (a2 : Bool) :
     List.zipWith (· * ·) (annex a2).rates (annex a2).toffs = [1000000, 1000000, 1000000, 1000000, 1000000] := by
   cases a2 <;> decide
 
-/-- generated `_TABLE_A2` = Table A.2: per-state rate/T_off, and the band lookup agrees for every CBR in [0,1] -/
-theorem generated_tableA2_is_annexA :
-    rowsMatchB codeA2 tableA2 = true ∧ ∀ c : Int, 0 ≤ c → c ≤ 10000 → target codeA2 c = band tableA2 c :=
-  ⟨rm_codeA2, target_codeA2⟩
-
-/-- generated `_TABLE_A1` vs Table A.1: rates/T_off agree; the band lookup agrees outside known finding C19-KF1 -/
-theorem generated_tableA1_is_annexA_partial :
-    rowsMatchB codeA1 tableA1 = true ∧
-    ∀ c : Int, 0 ≤ c → c ≤ 10000 → knownRegion false c = false → target codeA1 c = band tableA1 c :=
-  ⟨rm_codeA1, fun c h0 h1 hk => target_codeA1 c h0 h1 (by simpa [knownRegion] using hk)⟩
-
-/-- the generated Table A.1 is either the code as found or the repaired table (anything else re-opens this) -/
-theorem generated_tableA1_variant : codeA1 = tableA1Old ∨ codeA1 = tableA1Fixed := by decide
-
-/-- C19-KF1 witness: with Table A.1 as found, constant CBR 62 % ends in RESTRICTIVE, Annex A says Active 3 -/
-theorem tableA1Old_witness :
-    reactiveHolds tableA1 0 (trace tableA1Old 0 [6200, 6200, 6200, 6200]) = false ∧
-    run tableA1Old 0 [6200, 6200, 6200, 6200] = 4 ∧ band tableA1 6200 = 3 := by decide
-
-theorem tableA1Fixed_is_annexA :
-    rowsMatchB tableA1Fixed tableA1 = true ∧ ∀ c : Int, 0 ≤ c → c ≤ 10000 → target tableA1Fixed c = band tableA1 c :=
-  ⟨rm_fixedA1, target_fixedA1⟩
+/-- generated `_TABLE_A1` / `_TABLE_A2` = Tables A.1 / A.2: per-state rate and T_off, and the band lookup agrees for
+every CBR in [0,1] (a changed table value re-opens this) -/
+theorem generated_tables_are_annexA (a2 : Bool) :
+    rowsMatchB (codeTable a2) (annex a2) = true ∧
+    ∀ c : Int, 0 ≤ c → c ≤ 10000 → target (codeTable a2) c = band (annex a2) c :=
+  ⟨rm_code a2, target_code a2⟩
 
 /-- the Annex A bands partition [0,1]: every CBR lies in the band of exactly one state, namely `band` -/
 theorem bands_partition (a2 : Bool) (c : Int) (h0 : 0 ≤ c) (h1 : c ≤ 10000) :
     inBand (annex a2) (band (annex a2) c) c ∧ ∀ s, inBand (annex a2) s c → s = band (annex a2) c :=
   ⟨(inBand_iff a2 c h0 h1 _).2 rfl, fun s hs => (inBand_iff a2 c h0 h1 s).1 hs⟩
 
-example : inBand tableA2 3 6499 ∧ inBand tableA2 4 6500 ∧ inBand tableA1 0 2999 ∧ inBand tableA1 1 3000 := by
+example : inBand tableA2 3 6499 ∧ inBand tableA2 4 6500 ∧ inBand tableA1 3 5999 ∧ inBand tableA1 4 6000 := by
   simp [inBand, lo, hi, tableA1, tableA2]
 
 /-! ## Reactive approach: behaviour for every CBR sequence -/
@@ -75,20 +59,14 @@ theorem one_step_run (tbl : Table) : ∀ (cs : List Int) (s : Nat), statesAdj (s
 theorem state_bounded (a2 : Bool) (s : Nat) (c : Int) (hs : s ≤ 4) : (update (codeTable a2) s c).1 ≤ 4 := by
   rw [update_fst]; split
   · exact hs
-  · refine stepIdx_le4 s _ hs (target_le _ ?_ c)
-    cases a2
-    · exact rowsMatch_states rm_codeA1
-    · exact rowsMatch_states rm_codeA2
+  · exact stepIdx_le4 s _ hs (target_le _ (rowsMatch_states (rm_code a2)) c)
 
 /-- CBR outside [0,1] is rejected and leaves the state unchanged; inside it is accepted -/
 theorem rejects_outside_unit (a2 : Bool) (s : Nat) (c : Int) (hs : s ≤ 4) :
     ((c < 0 ∨ 10000 < c) → update (codeTable a2) s c = (s, .valueError)) ∧
     (¬ (c < 0 ∨ 10000 < c) → ∃ st r t, (update (codeTable a2) s c).2 = .ok st r t) := by
   refine ⟨update_invalid _ s c, fun h => ?_⟩
-  have hm : rowsMatchB (codeTable a2) (annex a2) = true := by
-    cases a2
-    · exact rm_codeA1
-    · exact rm_codeA2
+  have hm := rm_code a2
   obtain ⟨r, t, hu, _, _⟩ := update_valid hm s hs c h
   exact ⟨_, r, t, by rw [hu]⟩
 
@@ -97,35 +75,16 @@ theorem output_is_row (a2 : Bool) (s : Nat) (c : Int) (hs : s ≤ 4) (h : ¬ (c 
     ∃ r t, (update (codeTable a2) s c).2 = .ok (update (codeTable a2) s c).1 r t ∧
       (annex a2).rates[(update (codeTable a2) s c).1]? = some r ∧
       (annex a2).toffs[(update (codeTable a2) s c).1]? = some t := by
-  have hm : rowsMatchB (codeTable a2) (annex a2) = true := by
-    cases a2
-    · exact rm_codeA1
-    · exact rm_codeA2
+  have hm := rm_code a2
   obtain ⟨r, t, hu, h1, h2⟩ := update_valid hm s hs c h
   exact ⟨r, t, by rw [hu], by rw [hu]; exact h1, by rw [hu]; exact h2⟩
 
 /-- constant input: after four (or more) evaluations the state is the Annex A band of the input, from every
-start state — for the code as generated, outside known finding C19-KF1 -/
-theorem converges_4_partial (a2 : Bool) (s : Nat) (c : Int) (n : Nat) (hs : s ≤ 4) (h0 : 0 ≤ c) (h1 : c ≤ 10000)
-    (hk : knownRegion a2 c = false) (hn : 4 ≤ n) :
-    run (codeTable a2) s (List.replicate n c) = band (annex a2) c := by
-  have ht : target (codeTable a2) c = band (annex a2) c := by
-    cases a2
-    · exact target_codeA1 c h0 h1 (by simpa [knownRegion] using hk)
-    · exact target_codeA2 c h0 h1
-  have hd := run_replicate_dist (codeTable a2) c (by omega) n s
-  have h4 := dist_le4 s (band (annex a2) c) hs (band_le4 a2 c)
-  rw [ht] at hd
-  exact (dist_zero _ _).1 (by omega)
-
-/-- the same, full strength, for the repaired table -/
+start state, for both tables (every n ≥ 4, so it also stays there) -/
 theorem converges_4 (a2 : Bool) (s : Nat) (c : Int) (n : Nat) (hs : s ≤ 4) (h0 : 0 ≤ c) (h1 : c ≤ 10000)
-    (hn : 4 ≤ n) : run (fixedTable a2) s (List.replicate n c) = band (annex a2) c := by
-  have ht : target (fixedTable a2) c = band (annex a2) c := by
-    cases a2
-    · exact target_fixedA1 c h0 h1
-    · exact target_codeA2 c h0 h1
-  have hd := run_replicate_dist (fixedTable a2) c (by omega) n s
+    (hn : 4 ≤ n) : run (codeTable a2) s (List.replicate n c) = band (annex a2) c := by
+  have ht := target_code a2 c h0 h1
+  have hd := run_replicate_dist (codeTable a2) c (by omega) n s
   have h4 := dist_le4 s (band (annex a2) c) hs (band_le4 a2 c)
   rw [ht] at hd
   exact (dist_zero _ _).1 (by omega)
@@ -134,47 +93,14 @@ theorem converges_4 (a2 : Bool) (s : Nat) (c : Int) (n : Nat) (hs : s ≤ 4) (h0
 example : run codeA2 0 [7000, 7000, 7000] = 3 ∧ run codeA2 0 [7000, 7000, 7000, 7000] = 4 := by decide
 
 /-- the whole reactive clause of the property, as the Spec trace checker, for every history (any inputs, valid or
-not, any length) from every state — repaired table -/
+not, any length) from every state, for both tables as generated from the source -/
 theorem reactive_holds (a2 : Bool) (s0 : Nat) (cs : List Int) (hs : s0 ≤ 4) :
-    reactiveHolds (annex a2) s0 (trace (fixedTable a2) s0 cs) = true := by
-  have hm : rowsMatchB (fixedTable a2) (annex a2) = true := by
-    cases a2
-    · exact rm_fixedA1
-    · exact rm_codeA2
-  have hg : ∀ c, 0 ≤ c → c ≤ 10000 → True → target (fixedTable a2) c = band (annex a2) c := by
-    intro c h0 h1 _
-    cases a2
-    · exact target_fixedA1 c h0 h1
-    · exact target_codeA2 c h0 h1
-  simp only [reactiveHolds, Bool.and_eq_true]
-  exact ⟨⟨adj_trace hm cs s0 hs, rows_trace hm cs s0 hs⟩,
-    conv_trace hm (fun _ => True) hg (band_le4 a2) cs s0 none 0 hs (fun _ _ => trivial) (fun _ h => by cases h)⟩
-
-/-- … and for the code as generated, for every history that avoids known finding C19-KF1 -/
-theorem reactive_holds_partial (a2 : Bool) (s0 : Nat) (cs : List Int) (hs : s0 ≤ 4)
-    (hk : ∀ c ∈ cs, knownRegion a2 c = false) :
     reactiveHolds (annex a2) s0 (trace (codeTable a2) s0 cs) = true := by
-  have hm : rowsMatchB (codeTable a2) (annex a2) = true := by
-    cases a2
-    · exact rm_codeA1
-    · exact rm_codeA2
-  have hg : ∀ c, 0 ≤ c → c ≤ 10000 → knownRegion a2 c = false → target (codeTable a2) c = band (annex a2) c := by
-    intro c h0 h1 hk
-    cases a2
-    · exact target_codeA1 c h0 h1 (by simpa [knownRegion] using hk)
-    · exact target_codeA2 c h0 h1
+  have hm := rm_code a2
   simp only [reactiveHolds, Bool.and_eq_true]
   exact ⟨⟨adj_trace hm cs s0 hs, rows_trace hm cs s0 hs⟩,
-    conv_trace hm (fun c => knownRegion a2 c = false) hg (band_le4 a2) cs s0 none 0 hs hk (fun _ h => by cases h)⟩
-
-/-- adjacency and row output hold for the code as generated on *every* history, known region included -/
-theorem reactive_adj_rows_code (a2 : Bool) (s0 : Nat) (cs : List Int) (hs : s0 ≤ 4) :
-    adjOK s0 (trace (codeTable a2) s0 cs) = true ∧ rowsOK (annex a2) (trace (codeTable a2) s0 cs) = true := by
-  have hm : rowsMatchB (codeTable a2) (annex a2) = true := by
-    cases a2
-    · exact rm_codeA1
-    · exact rm_codeA2
-  exact ⟨adj_trace hm cs s0 hs, rows_trace hm cs s0 hs⟩
+    conv_trace hm (fun _ => True) (fun c h0 h1 _ => target_code a2 c h0 h1) (band_le4 a2) cs s0 none 0 hs
+      (fun _ _ => trivial) (fun _ h => by cases h)⟩
 
 /-- non-vacuity: a concrete history with rejected inputs in between passes the checker, and the checker can fail -/
 example : trace codeA2 0 [3500, -1, 3500, 10001, 9999] =
